@@ -29,14 +29,17 @@ pub fn module_of(id: &str) -> &str {
 #[derive(Clone, Copy, Debug, PartialEq, Eq)]
 pub enum Behaviour {
     Valid,
+    /// valid, and one of the listed players has an empty name (a client that is still connecting)
+    ValidUnnamedPlayer,
     ValidDedicatedId,
     ForeignId,
     InfoThenSilent,
     RulesMalformed,
     Silence,
 }
-pub const BEHAVIOURS: [Behaviour; 6] = [
+pub const BEHAVIOURS: [Behaviour; 7] = [
     Behaviour::Valid,
+    Behaviour::ValidUnnamedPlayer,
     Behaviour::ValidDedicatedId,
     Behaviour::ForeignId,
     Behaviour::InfoThenSilent,
@@ -80,6 +83,11 @@ fn server_with(game: &Game, b: Behaviour) -> Option<Box<dyn Responder>> {
             _ => *main,
         };
         let mut s = valve_seed(e);
+        if b == Behaviour::ValidUnnamedPlayer {
+            if let Some(p) = s.players.first_mut() {
+                p.name = String::new();
+            }
+        }
         s.info.appid = if id <= 0xffff { id as u16 } else { 0 };
         s.info.edf.as_mut().unwrap().game_id = Some(id as u64);
         let t = valve_seed_transport(e, &s);
@@ -158,7 +166,8 @@ fn generic_path(game: &Game, ip: &std::net::IpAddr, port: Option<u16>, ts: Optio
     let r = gamedig::query_with_timeout_and_extra_settings(game, ip, port, ts, extra)?;
     let orig = r.as_original();
     let conv = match &orig {
-        GenericResponse::Valve(v) => Some(json!({"ValveGame": to_json(&valve::game::Response::new_from_valve_response((*v).clone()))})),
+        // (converted field by field by the harness, not by the conversion the per-game modules use)
+        GenericResponse::Valve(v) => Some(json!({"ValveGame": to_json(&super::c02::reference_game_response(v))})),
         _ => None,
     };
     Ok((to_json(&orig), conv))
